@@ -11,7 +11,7 @@ import random
 from vmon import core, inventory, pipeline, structural
 from vmon.gen import spelling
 
-VALUES = {'quick': 12, 'thorough': 40}
+VALUES = {'quick': 30, 'thorough': 60}
 VARIANTS = {'quick': 120, 'thorough': 600}
 SYNTH_BLOCKS = {'quick': 40, 'thorough': 400}
 # values a modelled field cannot interpret: the field is then kept as an unparsed one (its spelled name becomes data)
